@@ -86,3 +86,10 @@ Theorem C13_unchecked_global_lookup_refuted :
     fst (run 1 (getrevision_unchecked demo_attack) d) <> fst (run 1 (getrevision_unchecked demo_attack) d').
 Proof. exact getrevision_unchecked_refuted. Qed.
 Print Assumptions C13_unchecked_global_lookup_refuted.
+
+(* listings (documents by page or query, schemas, attachment counts): exactly the asking
+   project's rows of that table, whatever else the database holds *)
+Theorem C13_listings_are_scoped : forall P t d r,
+  In r (list_proj P t d) <-> In r d /\ r_tbl r = t /\ r_proj r = P.
+Proof. exact list_proj_scoped. Qed.
+Print Assumptions C13_listings_are_scoped.
